@@ -465,6 +465,7 @@ PROPS["C17"] = {
                   "hand-written model (tied by differential testing only); httptest.ResponseRecorder as the wrapped writer; "
                   "status codes 100..999; Before hooks do not touch Content-Type.",
     "props_modules": ["Flamego.Props.C17"],
+    "code_modules": ["Flamego.Props.C17Code"],
     "suite": "C17",
     "compare": _c17_compare,
     "stats": _c17_stats(generic_stats(_c17_nontrivial,
@@ -1215,6 +1216,31 @@ _router_entry("C10",
     lambda op, r, m, n: r.startswith("h "),
     "case = (history, request); non-trivial = dispatched (to a static or shadowing dynamic route)")
 PROPS["C09"]["props_modules"] = ["Flamego.Props.C09", "Flamego.Props.C09Values"]
+PROPS["C09"]["code_modules"] = ["Flamego.Props.C09Code"]
+PROPS["C17"]["technique"] = PROPS["C17"]["technique"] + "; code-level tie: the bodies of JSON, XML, Binary and PlainText are translated to Lean on every run and proved to issue exactly the model's operations on the response writer, for every renderer, payload and behaviour of the encoders"
+PROPS["C17"]["level_text"] = PROPS["C17"]["level_text"] + (
+    " CODE-LEVEL TIE: /verif/translator regenerates Gen/RenderCode.lean from render.go on every run (the render struct, RenderOptions, "
+    "and the four methods; the response writer is an environment object whose trace records every call made on it or through it: "
+    "Header().Set, WriteHeader, Write, the encoder's SetIndent/Indent/Encode, http.Error) and Props/C17Code proves binary_refines, "
+    "plainText_refines, json_refines, xml_refines (the calls a body makes are exactly Model/Render's renderOps, for the encoder that "
+    "did what the environment's encoder did) and carries the clauses over (code_binary, code_plainText, code_json, code_xml: status "
+    "sent once and first, the table's Content-Type, payload verbatim / exactly the encoder's output). When the source leaves the "
+    "translated subset or a proof no longer checks, the evidence says so and the correspondence, run at thorough depth, decides.")
+PROPS["C17"]["trusted_base"] = PROPS["C17"]["trusted_base"] + [
+    "code-level tie: the Go→Lean translator of method bodies (translator/gocode.go, rendercode.go) and Code/GoSem.lean; what an "
+    "encoder writes and whether it fails is the environment's (a parameter, as in the model); the text of an error is a parameter"]
+
+PROPS["C09"]["technique"] = PROPS["C09"]["technique"] + "; code-level tie for HeaderMatcher.Match: its body is translated to Lean on every run and proved equal to the model's constraint test for every engine, constraint set and header set, in whatever order Go ranges over the map"
+PROPS["C09"]["level_text"] = PROPS["C09"]["level_text"] + (
+    " CODE-LEVEL TIE: /verif/translator regenerates Gen/HeaderCode.lean from internal/route/header_matcher.go on every run "
+    "(NewHeaderMatcher, Match; a compiled regexp stands for its expression, MatchString is the engine parameter) and Props/C09Code "
+    "proves match_refines (the generated Match = the model's hdrPairsOK when the header set is read through Header.Get), match_iff "
+    "(true exactly when every constrained header has a non-empty first value its expression finds), match_order_irrelevant (the "
+    "order in which the map is ranged over cannot matter) and match_pure. When the source leaves the translated subset or a "
+    "proof no longer checks, the evidence says so and the correspondence, run at thorough depth, decides.")
+PROPS["C09"]["trusted_base"] = PROPS["C09"]["trusted_base"] + [
+    "code-level tie: the Go→Lean translator of method bodies (translator/gocode.go, headercode.go); Header.Get as modelled in "
+    "Code/LibHTTP.lean (first value of the key; canonicalisation of the key is net/http's and arrives with the request lines)"]
 PROPS["C10"]["props_modules"] = ["Flamego.Props.C10", "Flamego.Proofs.Shortcut", "Flamego.Proofs.ShortcutTree"]
 _router_entry("C12",
     "Lean 4 theorems over skeleton/replaceAll/name table + differential correspondence of Router.URLPath / Context.URLPath / Leaf.URLPath",
